@@ -1794,6 +1794,232 @@ def check_cache(a):
     return None
 
 
+# ----------------------------------------------------------------------------
+# gen.overrides : ValidateAttributesOverrides over a class hierarchy in a given container order
+# ----------------------------------------------------------------------------
+def local_overrides(a):
+    """real classes; the RESOLVE step of a real container whose only processor at that
+    step is the real ValidateAttributesOverrides; classes visited in `order`"""
+    import logging
+
+    from xsdata.codegen.container import ClassContainer, Steps
+    from xsdata.codegen.handlers import ValidateAttributesOverrides
+    from xsdata.codegen.models import Attr, AttrType, Class, Extension, Restrictions, Status
+    from xsdata.logger import logger
+    from xsdata.models.config import GeneratorConfig
+    from xsdata.models.enums import DataType, Tag
+
+    logger.setLevel(logging.CRITICAL)
+    container = ClassContainer(GeneratorConfig())
+    objs = []
+    for n, c in enumerate(a["classes"]):
+        attrs = []
+        for x in c["attrs"]:
+            tp = DataType.ANY_TYPE if x["any"] else DataType.STRING
+            attrs.append(
+                Attr(
+                    tag=Tag.ATTRIBUTE if x["attribute"] else Tag.ELEMENT,
+                    name=x["name"],
+                    namespace=x["ns"],
+                    default=str(x["sig"]) if x["sig"] else None,
+                    types=[AttrType(qname=str(tp), native=True)],
+                    restrictions=Restrictions(min_occurs=x["min"], max_occurs=x["max"]),
+                )
+            )
+        obj = Class(
+            qname=f"C{n}", tag=Tag.COMPLEX_TYPE, location="mem", attrs=attrs, status=Status.SANITIZED,
+            extensions=[Extension(tag=Tag.EXTENSION, type=AttrType(qname=f"C{c['base']}"), restrictions=Restrictions())]
+            if c["base"] is not None else [],
+        )
+        objs.append(obj)
+        container.add(obj)
+    container.processors = {Steps.RESOLVE: [ValidateAttributesOverrides(container)]}
+    container.step = Steps.RESOLVE
+    for t in a["order"]:
+        if objs[t].status < Steps.RESOLVE:
+            container.process_class(objs[t], Steps.RESOLVE)
+    return ok([[[x.name, x.restrictions.min_occurs, x.restrictions.max_occurs] for x in o.attrs] for o in objs])
+
+
+def impl_overrides(a):
+    return across_seeds("gen.overrides", a, local_overrides)
+
+
+OV_NAMES = ["e", "E", "e_", "f", "value", "t1_e", "e_Attribute", "e_1"]
+OV_NS = [None, "urn:t0", "urn:t1", "http://x.org/y"]
+
+
+def overrides_case(classes, order):
+    from xsdata.utils.namespaces import clean_uri
+
+    nss = sorted({x["ns"] for c in classes for x in c["attrs"] if x["ns"]})
+    return {"classes": classes, "order": order, "clean_uri": [[ns, clean_uri(ns)] for ns in nss]}
+
+
+def gen_overrides(rng, tier):
+    import sys as _sys
+
+    def at(name, ns=None, attribute=False, mn=0, mx=1, sig=0, any_=False):
+        return {"name": name, "ns": ns, "attribute": attribute, "min": mn, "max": mx, "sig": sig, "any": any_}
+
+    # the witness of C12-F7: B{e}, D1 extends B {e in another namespace}, D2 extends B {e, same namespace}
+    w = [
+        {"attrs": [at("e", "urn:t1")], "base": None},
+        {"attrs": [at("e", "urn:t0")], "base": 0},
+        {"attrs": [at("e", "urn:t1")], "base": 0},
+    ]
+    for order in ([0, 1, 2], [0, 2, 1], [2, 1, 0], [1]):
+        yield overrides_case(w, order)
+    # the parent becomes a list for one derived class
+    l = [
+        {"attrs": [at("e")], "base": None},
+        {"attrs": [at("e", mx=5, sig=1)], "base": 0},
+        {"attrs": [at("e", sig=2)], "base": 0},
+    ]
+    for order in ([1, 2], [2, 1]):
+        yield overrides_case(l, order)
+    hand = [
+        [{"attrs": [at("e", attribute=True), at("f")], "base": None}, {"attrs": [at("e"), at("f", mx=0)], "base": 0}],
+        [{"attrs": [at("e", any_=True)], "base": None}, {"attrs": [at("e", sig=3)], "base": 0}],
+        [{"attrs": [at("e", mx=0)], "base": None}, {"attrs": [at("e", mx=3)], "base": 0}, {"attrs": [at("E", "urn:t0"), at("x", mx=0)], "base": 1}],
+        [{"attrs": [at("e", "urn:t1"), at("t1_e")], "base": None}, {"attrs": [at("e", "urn:t0")], "base": 0}],
+    ]
+    for classes in hand:
+        n = len(classes)
+        for order in itertools.permutations(range(n)):
+            yield overrides_case(classes, list(order))
+    for i in range(300 if tier == "quick" else 6000):
+        n = rng.randint(2, 5)
+        pool = rng.sample(OV_NAMES, rng.randint(1, 4))
+        classes = []
+        for k in range(n):
+            base = None if k == 0 else (0 if rng.random() < 0.6 else rng.randrange(k))
+            names = rng.sample(pool, rng.randint(1, len(pool)))
+            attrs = [
+                at(
+                    nm,
+                    rng.choice(OV_NS) if rng.random() < 0.6 else None,
+                    rng.random() < 0.25,
+                    rng.choice([0, 0, 1]),
+                    rng.choice([0, 1, 1, 1, 4, _sys.maxsize]),
+                    rng.choice([0, 0, 0, 1, 2]),
+                    rng.random() < 0.08,
+                )
+                for nm in names
+            ]
+            # a class holds one attr per slug (RenameDuplicateAttributes ran before)
+            seen, uniq = set(), []
+            for x in attrs:
+                sl = "".join(ch for ch in x["name"] if ch.isascii() and ch.isalnum()).lower()
+                if sl not in seen:
+                    seen.add(sl)
+                    uniq.append(x)
+            classes.append({"attrs": uniq, "base": base})
+        order = list(range(n))
+        rng.shuffle(order)
+        yield dict(overrides_case(classes, order), _nw=i % 4 != 0)
+
+
+def classify_overrides(a, o):
+    if "err" in o:
+        return "err:" + str(o["err"])[:20]
+    before = [[x["name"] for x in c["attrs"]] for c in a["classes"]]
+    after = [[x[0] for x in c] for c in o["ok"]]
+    parent_renamed = any(
+        set(after[k]) - set(before[k]) and any(c["base"] == k for c in a["classes"]) for k in range(len(before))
+    )
+    removed = any(len(after[k]) < len(before[k]) for k in range(len(before)))
+    listed = any(x[2] > 1 and y["max"] <= 1 for c, d in zip(o["ok"], a["classes"]) for x, y in zip(c, d["attrs"]) if len(c) == len(d["attrs"]))
+    return f"renamed-in-base={'y' if parent_renamed else 'n'},removed={'y' if removed else 'n'},to-list={'y' if listed else 'n'}"
+
+
+def _ov_slug(name):
+    return "".join(ch for ch in name if ch.isascii() and ch.isalnum()).lower()
+
+
+def overrides_contested(a):
+    """[(ancestor, slug, family)]: a class `ancestor` has an attr filed under `slug`, at least
+    two classes derived from it declare an attr under that slug, and for one of them the handler
+    changes the ancestor's attr (the child attr is not an override -> the ancestor's attr is
+    renamed; or the child is a list and the ancestor's attr is not -> it becomes a list); the
+    other derived class may also declare its attr under a renamed form of the slug.
+    family = the ancestor and every class derived from it."""
+    cls = a["classes"]
+
+    def ancestors(k):
+        out = []
+        b = cls[k]["base"]
+        while b is not None and b not in out:
+            out.append(b)
+            b = cls[b]["base"]
+        return out
+
+    out = []
+    for anc in range(len(cls)):
+        desc = [j for j in range(len(cls)) if anc in ancestors(j)]
+        for p in cls[anc]["attrs"]:
+            sl = _ov_slug(p["name"])
+            # derived classes whose validation changes the ancestor's attr
+            mutators = {
+                j
+                for j in desc
+                for x in cls[j]["attrs"]
+                if _ov_slug(x["name"]) == sl
+                and (not (x["attribute"] == p["attribute"] and x["ns"] == p["ns"]) or (x["max"] > 1 and p["max"] == 1))
+            }
+            # derived classes with an attr filed under that slug or under a renamed form of it
+            interested = {j for j in desc for x in cls[j]["attrs"] if sl in _ov_slug(x["name"])}
+            if mutators and len(interested | mutators) >= 2:
+                out.append((anc, sl, {anc, *desc}))
+    return out
+
+
+def overrides_mutating(a):
+    return bool(overrides_contested(a))
+
+
+def overrides_orders(a):
+    import random as _r
+
+    full = list(range(len(a["classes"])))
+    yield full
+    for k in (1, 2, 3):
+        order = list(full)
+        _r.Random(k).shuffle(order)
+        yield order
+
+
+def check_overrides(a):
+    """which fields a class gets does not depend on the order in which the container visits the classes"""
+    runs = [(o, local_overrides(dict(a, order=o))) for o in overrides_orders(a)]
+    for o, got in runs[1:]:
+        if got != runs[0][1]:
+            return f"fields depend on the visiting order: {runs[0][0]} -> {runs[0][1]['ok']}, {o} -> {got['ok']}"
+    return None
+
+
+def covered_overrides(a, msg):
+    """C12-F7 exactly: every class whose fields differ between two visiting orders belongs to the
+    family of a contested base attr, and every field that differs is one filed under the contested
+    slug or a renamed form of it (`<ns>_<name>`, `<name>_<Tag>`, `<name>_<index>`)."""
+    contested = overrides_contested(a)
+    if not contested:
+        return None
+    runs = [local_overrides(dict(a, order=o))["ok"] for o in overrides_orders(a)]
+    for got in runs[1:]:
+        for k, (fa, fb) in enumerate(zip(runs[0], got)):
+            if fa == fb:
+                continue
+            fams = [(anc, sl) for anc, sl, fam in contested if k in fam]
+            if not fams:
+                return None
+            diff = [x for x in fa if x not in fb] + [x for x in fb if x not in fa]
+            for name, _mn, _mx in diff:
+                if not any(sl in _ov_slug(name) for _anc, sl in fams):
+                    return None
+    return "C12-F7"
+
+
 IMPLS_LOCAL = {
     "gen.scc": local_scc,
     "gen.toposort": local_toposort,
@@ -1805,6 +2031,7 @@ IMPLS_LOCAL = {
     "gen.seqchain": local_seqchain,
     "gen.circular": local_circular,
     "gen.styles": local_styles,
+    "gen.overrides": local_overrides,
 }
 
 
@@ -1839,6 +2066,9 @@ CORRS = [
     Corr("gen.circular", gen_circular, impl_circular, classify=classify_circular,
          nontrivial=lambda a, o: any(c["types"] for c in a["classes"]),
          describe="DetectCircularReferences.process over real classes in a given visiting order"),
+    Corr("gen.overrides", gen_overrides, impl_overrides, classify=classify_overrides,
+         nontrivial=lambda a, o: len(a["classes"]) > 1,
+         describe="ValidateAttributesOverrides through the real container's RESOLVE step, classes visited in a given order"),
     Corr("gen.styles", gen_styles, impl_styles, classify=classify_styles,
          nontrivial=lambda a, o: len(a["classes"]) > 1,
          describe="DesignateClassPackages.run for the styles namespaces / single-package / filenames"),
@@ -2187,6 +2417,8 @@ ORACLES = [
     Oracle("paths-follow-cwd", gen_cwd, check_cwd),
     Oracle("circular-flags-only-on-cycles", gen_circular, check_circular, from_ops=("gen.circular",)),
     Oracle("styles-container-order-independent", gen_styles, check_styles, from_ops=("gen.styles",)),
+    Oracle("overrides-visiting-order-independent", gen_overrides, check_overrides, covered=covered_overrides,
+           from_ops=("gen.overrides",)),
     Oracle("cache-history-independent", gen_cache, check_cache, from_ops=("gen.cache",)),
     Oracle("generation-byte-identical", gen_oracle_e2e, check_e2e, covered=covered_e2e, from_ops=("gen.e2e",),
            adapt=lambda op, a: {"schemas": a["schemas"], "options": a["options"]}),
